@@ -1,7 +1,7 @@
 -------------------------------- MODULE Trace_Sig --------------------------------
 (* Trace validation for C03.  Every recorded Sign / Verify call of the real code    *)
-(* is judged against TinkSig (strict DER in TLA+, RFC 8017 encodings in TLA+, curve  *)
-(* and modular arithmetic from the JDK).                                            *)
+(* is judged against TinkSig (strict DER, the ECDSA verification equation and the    *)
+(* RFC 8017 encodings in TLA+; big-integer / curve arithmetic from the JDK).        *)
 (*                                                                                  *)
 (*  sign    Tink produced `sig` for `msg`: the reference must verify it (prefix      *)
 (*          exact, strict encoding, standard algorithm over msg [|| 0x00]).          *)
@@ -10,7 +10,9 @@
 (*          verdict must equal the reference's.                                      *)
 (*  construct  coverage only (which configurations the library refuses).            *)
 (* Known-answer events of bin/selfspec (Wycheproof) use `verify` with route          *)
-(* "wycheproof".                                                                     *)
+(* "wycheproof".  A disagreement between the TLA+ reference and the JDK's own        *)
+(* whole-algorithm provider (second opinion) is reported as REFERENCE-SPLIT, which   *)
+(* the check turns into an infrastructure error, never into a verdict.               *)
 EXTENDS TinkSig, Json, IOUtils, TLC
 
 Trace == ndJsonDeserialize(IOEnv.VERIF_TRACE)
@@ -26,9 +28,6 @@ Cfg(e) == [alg |-> e.alg, curve |-> e.curve, hash |-> e.hash, mgf |-> e.mgf, enc
 Pk(e) == IF IsRSA(e) THEN [n |-> HexToBytes(e.pk), e |-> HexToBytes(e.e)] ELSE HexToBytes(e.pk)
 
 Split == <<"REFERENCE-SPLIT: TLA+ reference and JDK whole-algorithm provider disagree", "infrastructure">>
-
-\* An event carries a signature to judge unless the call panicked or Sign failed.
-HasSig(e) == ~e.panic /\ ~(e.ev = "sign" /\ e.err)
 
 \* Diagnosis attached to an RSA-SSA-PSS disagreement: is the signature a valid RSASSA-PSS signature
 \* of the message for SOME salt length other than the key's?  (Evaluated on mismatches only.)
